@@ -1399,6 +1399,16 @@ pub fn sessions_c17() -> Vec<Session> {
             name: "quit-with-pending-input",
             acts: vec![Arrive(inp(b"ab")), Poll(Some(0)), Poll(Some(0)), Poll(Some(0))],
             allowed: vec![(Inject::Term, 1)], stall_selects: 0, probe: false, kitty: false },
+        // three wake requests: the second one may land between the moment the poll loop notices the first and the
+        // moment it drains the wake pipe; the third one must still get through
+        Session {
+            name: "wake-three",
+            acts: vec![Write(5), Poll(Some(0)), Poll(Some(5)), Poll(Some(0))],
+            allowed: vec![(Inject::Wake, 3)], stall_selects: 0, probe: false, kitty: false },
+        Session {
+            name: "wake-three-idle",
+            acts: vec![Arrive(Inject::Wake), Poll(Some(5)), Poll(Some(0)), Poll(Some(5))],
+            allowed: vec![(Inject::Wake, 2)], stall_selects: 0, probe: false, kitty: false },
         // a termination signal and a window-size signal pending in one batch, in both orders and at every pair of points
         Session {
             name: "term-with-winch",
@@ -1591,9 +1601,98 @@ pub fn replay_session(w: &Value) -> Result<(bool, String), String> {
 /// real kernel's schedules; decides nothing about the properties' quantifiers, but shows that the
 /// H2 seam is inert when unused and that the kernel model's oracle also holds on a real pty.
 pub fn conformance_run(session: &Session, pace_us: u64) -> Result<Outcome, String> {
+    let (master, slave) = open_pty()?;
+    conformance_run_on(master, slave, session, pace_us)
+}
+
+/// Successive terminal objects in one process (no kernel model: real system calls). A first terminal is opened
+/// on a pty whose other end is closed before the terminal is released (so that restoring its line settings
+/// fails); then a second terminal is opened on a pty with the SAME device number (numbers are recycled) whose
+/// line settings at open time are different, runs a short session and is released normally. The settings found
+/// afterwards must be those found when the second terminal was opened. Returns (runs, problems).
+pub fn successive_terminals_check() -> Result<(u64, Vec<(String, String)>), String> {
+    prepare_process();
+    let rdev_of = |fd: RawFd| -> u64 {
+        unsafe {
+            let mut st: libc::stat = std::mem::zeroed();
+            if libc::fstat(fd, &mut st) == 0 {
+                st.st_rdev as u64
+            } else {
+                0
+            }
+        }
+    };
+    let mut problems = vec![];
+    let mut runs = 0u64;
+    for variant in 0..3u32 {
+        // first terminal, hung up before its release
+        let (master_a, slave_a) = open_pty()?;
+        let rdev_a = rdev_of(slave_a.as_raw_fd());
+        {
+            let mut first = SystemTerminal::new_from_fd(slave_a).map_err(|e| format!("first terminal: {e:?}"))?;
+            drop(master_a);
+            let _ = first.poll(Some(Duration::from_millis(0)));
+            drop(first);
+        }
+        // second pty with the same device number: open until the number comes back
+        let mut spare = vec![];
+        let mut found = None;
+        for _ in 0..64 {
+            let (m, s) = open_pty()?;
+            if rdev_of(s.as_raw_fd()) == rdev_a {
+                found = Some((m, s));
+                break;
+            }
+            spare.push((m, s));
+        }
+        drop(spare);
+        let Some((master_b, slave_b)) = found else {
+            // another process took the number: nothing can be concluded from this round
+            continue;
+        };
+        // different line settings at open time
+        unsafe {
+            let mut t: libc::termios = std::mem::zeroed();
+            if libc::tcgetattr(slave_b.as_raw_fd(), &mut t) != 0 {
+                return Err("tcgetattr on the second pty failed".into());
+            }
+            match variant {
+                0 => {
+                    t.c_lflag &= !libc::ECHO;
+                    t.c_cc[libc::VINTR] = 0x1d;
+                }
+                1 => {
+                    t.c_lflag &= !(libc::ICANON | libc::ISIG);
+                    t.c_cc[libc::VMIN] = 3;
+                }
+                _ => {
+                    t.c_iflag |= libc::IXON;
+                    t.c_oflag &= !libc::OPOST;
+                    t.c_cc[libc::VEOF] = 0x1a;
+                }
+            }
+            if libc::tcsetattr(slave_b.as_raw_fd(), libc::TCSANOW, &t) != 0 {
+                return Err("tcsetattr on the second pty failed".into());
+            }
+        }
+        let session = Session { name: "second-terminal", acts: vec![Act::Write(5), Act::Poll(Some(0))], allowed: vec![], stall_selects: 0, probe: false, kitty: false };
+        let o = conformance_run_on(master_b, slave_b, &session, 0)?;
+        runs += 1;
+        if !o.termios_restored {
+            problems.push((
+                "termios:after-hung-up-terminal-on-same-device".to_string(),
+                format!(
+                    "a terminal was opened on a pty (device {rdev_a:#x}) whose other end was closed before its release; the next terminal, opened on a pty with the same device number but other line settings (variant {variant}), did not leave the settings it had found when it was released"
+                ),
+            ));
+        }
+    }
+    Ok((runs, problems))
+}
+
+pub fn conformance_run_on(master: OwnedFd, slave: OwnedFd, session: &Session, pace_us: u64) -> Result<Outcome, String> {
     use std::sync::atomic::{AtomicBool, Ordering};
     use std::sync::{Arc, Mutex};
-    let (master, slave) = open_pty()?;
     let slave_dup = unsafe { libc::dup(slave.as_raw_fd()) };
     let saved = termios_of(slave_dup).ok_or("tcgetattr on the pty failed")?;
     let stop = Arc::new(AtomicBool::new(false));
